@@ -14,6 +14,7 @@ import (
 
 type G struct {
 	r      *rand.Rand
+	ascii  bool // strings of 7-bit bytes only (for %q renderings)
 	domain bool // restrict arguments to the C01 domain
 	big    bool // allow 16k/64k strings
 }
@@ -51,6 +52,15 @@ func (g *G) length() int {
 
 func (g *G) bytesN(n int) []byte {
 	b := make([]byte, n)
+	if g.ascii {
+		for i := range b {
+			b[i] = byte(g.pick(128))
+			if g.chance(70) {
+				b[i] = byte(0x20 + g.pick(0x5f))
+			}
+		}
+		return b
+	}
 	switch g.pick(4) {
 	case 0: // ascii
 		for i := range b {
@@ -301,8 +311,17 @@ func (g *G) calls(k, n int) []string {
 		s := ss[g.pick(len(ss))]
 		cs = append(cs, s.name+":"+g.arg(s))
 	}
-	if g.domain && k == 1 {
-		// a will delay interval exists only inside a will
+	if g.domain {
+		cs = domainFix(k, cs)
+	}
+	return cs
+}
+
+// domainFix removes calls that put a value where MQTT has no field for it:
+// a will delay interval without a will, a packet identifier on a QoS 0 PUBLISH.
+func domainFix(k int, cs []string) []string {
+	switch k {
+	case 1:
 		hasWill := false
 		for _, c := range cs {
 			if strings.HasPrefix(c, "SetWill:") {
@@ -313,6 +332,22 @@ func (g *G) calls(k, n int) []string {
 			var out []string
 			for _, c := range cs {
 				if !strings.HasPrefix(c, "SetWillDelayInterval:") {
+					out = append(out, c)
+				}
+			}
+			cs = out
+		}
+	case 3:
+		qos := "0"
+		for _, c := range cs {
+			if strings.HasPrefix(c, "SetQoS:") {
+				qos = c[7:]
+			}
+		}
+		if qos == "0" {
+			var out []string
+			for _, c := range cs {
+				if !strings.HasPrefix(c, "SetPacketID:") {
 					out = append(out, c)
 				}
 			}
@@ -340,6 +375,9 @@ func (g *G) subset(k, pct int) []string {
 		if g.chance(pct) {
 			cs = append(cs, s.name+":"+g.arg(s))
 		}
+	}
+	if g.domain {
+		cs = domainFix(k, cs)
 	}
 	return cs
 }
@@ -540,6 +578,40 @@ func gen(suite string, seed int64, n int, emit func(string)) {
 				init = "c"
 			}
 			emit(fmt.Sprintf("U %d %s %s", k, init, hexs(f[hl:])))
+		}
+	case "render":
+		for k := 0; k < 16; k++ {
+			emit("SZ " + strconv.Itoa(k))
+			emit("S " + strconv.Itoa(k))
+		}
+		for b := 0; b < 256; b++ {
+			for _, op := range []string{"FB", "CF", "CAF", "FO", "RC"} {
+				emit(op + " " + strconv.Itoa(b))
+			}
+		}
+		for i := 0; i < n; i++ {
+			g.ascii = true
+			g.big = false
+			k := g.kind()
+			g.domain = g.chance(50)
+			var cs []string
+			if g.chance(50) {
+				cs = g.calls(k, 1+g.pick(8))
+			} else {
+				cs = g.subset(k, 20+g.pick(70))
+			}
+			g.domain = false
+			emit("S " + strconv.Itoa(k) + sp(cs))
+			if g.chance(40) {
+				f := frameOf(build(k, cs))
+				if g.chance(30) {
+					f = g.mutate(f)
+				}
+				if len(f) < 4000 {
+					emit("SR " + hexs(f))
+				}
+			}
+			g.ascii = false
 		}
 	default:
 		panic("unknown suite " + suite)
